@@ -152,6 +152,13 @@ Theorem isolation_ops : forall (checked : bool) (cfg : config) (t0 : N) (ops1 : 
   nth_error (decisions_ops checked cfg t0 (ops1 ++ Reg b t :: ops2)) (length (regs ops1)) = Some (Ok Passed).
 Proof. exact isolation_ops_model. Qed.
 
+(** ... in particular when the address's own calls so far are at most the current maximum. *)
+Theorem isolation_own_traffic_ops : forall (checked : bool) (cfg : config) (t0 : N) (ops1 : list op) (b t : N) (ops2 : list op),
+  fits (length (ops1 ++ Reg b t :: ops2)) ->
+  calls_of b (regs (ops1 ++ [Reg b t])) <= max_requests (config_after cfg ops1) ->
+  nth_error (decisions_ops checked cfg t0 (ops1 ++ Reg b t :: ops2)) (length (regs ops1)) = Some (Ok Passed).
+Proof. exact isolation_own_traffic_ops_model. Qed.
+
 (** Neither other addresses nor configuration changes make a verdict harsher than the ladder of
     the current maximum on the address's own calls so far. *)
 Theorem others_never_hurt_ops : forall (checked : bool) (cfg : config) (t0 : N) (ops1 : list op) (b t : N) (ops2 : list op),
@@ -276,6 +283,11 @@ Example ex_ops_decisions :
      Ok Send; Ok Send; Ok Send; Ok Send; Ok Drop; Ok Drop; Ok Passed] /\
   no_reg [SetMax 2; SetEvery 1; SetReset None] = true /\
   counted_ops default_config 0 ex_ops 9 = 1 /\ counted_ops default_config 0 ex_ops 7 = 14.
+Proof. vm_compute. repeat split; discriminate. Qed.
+Example ex_ops_own_traffic_hyp :
+  let ops1 := [SetMax 2; SetEvery 1; SetReset None] ++ repeat (Reg 7 0) 8 ++ [SetMax 4] ++ repeat (Reg 7 0) 6 in
+  ex_ops = ops1 ++ Reg 9 0 :: [] /\ calls_of 9 (regs (ops1 ++ [Reg 9 0])) <= max_requests (config_after default_config ops1) /\
+  length (regs ops1) = 14%nat.
 Proof. vm_compute. repeat split; discriminate. Qed.
 (** [check_every] lowered in the middle: the call is due at once (5 calls since the last sampled one >= 3). *)
 Example ex_ops_every :
